@@ -35,7 +35,7 @@ class C05(Check):
             if rng.random() < 0.6:
                 scn["inj"].append({"k": "abs", "m": rng.randrange(len(MU.ABSTRACT)), "seed": rng.randrange(1 << 30)})
             else:
-                names = independent if n > 1 else sorted(MU.RAW) + sorted(MU.LAZY) + sorted(MU.FINAL)
+                names = independent if n > 1 else sorted(MU.RAW) + sorted(MU.LAZY) + sorted(MU.FINAL) + [k0 for k0, v0 in MU.RAW.items() if v0[1] == "after-extent"] * 3
                 scn["inj"].append({"k": "raw", "name": rng.choice(names), "def": rng.randrange(64), "seed": rng.randrange(1 << 30)})
         scn["read_seed"] = rng.randrange(1 << 30)
         return scn
@@ -88,6 +88,16 @@ class C05(Check):
         try:
             reached = False
             verdicts = set()
+            if rng.random() < 0.5:
+                # history: earlier in the same process the nested namespace directories were read as roots of their own (partial
+                # builds and editor plug-ins do this); whatever those calls returned or raised, the verdicts below are about the
+                # directories as designated now
+                subdirs = sorted({"/".join(uni.file_of(k).split("/")[: len(uni.roots[uni.root_of[k]]["dir"].split("/")) + n])
+                                  for k in uni.defs for n in (1, 2)
+                                  if len(uni.file_of(k).split("/")) - 1 >= len(uni.roots[uni.root_of[k]]["dir"].split("/")) + n})
+                for sd in subdirs[:4]:
+                    w.run_read({"op": "rn", "root": {"p": sd}, "lookups": [], "key": None, "cwd": "", "allow_unreg": True})
+                    out.stats["subroot_prereads"] += 1
             for i, op in enumerate(reads):
                 # bare-name roots are ambiguous if the (possibly renamed) root name is odd; keep designations absolute here
                 for a in op.get("roots", []) or []:
